@@ -17,7 +17,9 @@
    An edit of one of these methods that changes its text in these terms (a merged loop in submit, a conditional or
    dropped top-up in waitOne, a waitAll that stops early, a hook event moved across the action it reports, the last
    entry removed instead of the first ...) makes this file stop compiling even when no generated case reaches it. *)
-From Eino Require Import Base.Util Model.TaskMgr Model.TaskMgrCode Model.RunHandoff Proofs.TaskMgrCode.
+From Eino Require Import Base.Util Model.TaskMgr Model.TaskMgrCode Model.Confluence Model.RunHandoff Model.TaskMgrSubmit
+  Proofs.TaskMgrCode Proofs.TaskMgrSubmit.
+From Coq Require Import Permutation.
 From Eino Require Gen.TaskMgrCode.
 
 Theorem gen_executor_agrees : Gen.TaskMgrCode.code_executor = model_executor.
@@ -110,6 +112,49 @@ Proof. rewrite gen_waitOne_agrees. split; [|split]; reflexivity. Qed.
 Theorem gen_sync_only_when_idle : forall num len needAll,
   Gen.TaskMgrCode.code_sync_cond num len needAll = true -> num = 0 /\ (len = 1 \/ needAll = true).
 Proof. intros num len needAll. rewrite gen_sync_cond_agrees. apply sync_cond_idle. Qed.
+
+(* the hook events of executor's deferred function as translated, in program order, take the task through its stages *)
+Theorem gen_executor_cycle_is_lts : forall s e s' i t,
+  exec_ev s e = Some s' -> ev_task e = Some t ->
+  nth_error (match Gen.TaskMgrCode.code_executor with [_; ADefer b; _; _] => trace_of b | _ => [] end) i = Some (tk_of e) ->
+  spos (get_pc t (epcs s)) = Some i /\ spos (get_pc t (epcs s')) = Some (S i).
+Proof. rewrite gen_executor_agrees. exact executor_cycle. Qed.
+
+(* submit as translated, with the rule for the synchronous task as translated, run by the interpreter of
+   Model/TaskMgrSubmit.v: for EVERY list of new tasks, every number of outstanding tasks, either mode - a failing
+   pre-handler: the error, nothing started, nothing counted; otherwise every task started once and counted, every
+   pre-handler run once before the first start, the first task on the run loop's goroutine when the rule fires *)
+Theorem gen_submit_spec : forall needAll ts num s,
+  s = run Gen.TaskMgrCode.code_sync_cond needAll Gen.TaskMgrCode.code_submit (x_init ts num) ->
+  if existsb bad ts
+  then x_ret s = Some true /\ x_started s = [] /\ x_num s = num
+  else x_ret s = Some false /\ x_num s = num + List.length ts /\ x_pre s = filter sk_pre ts /\
+       x_started s = match ts with
+                     | [] => []
+                     | t :: r => if Gen.TaskMgrCode.code_sync_cond num (List.length ts) needAll
+                                 then map (fun u => (u, false)) r ++ [(t, true)]
+                                 else map (fun u => (u, false)) ts
+                     end.
+Proof. intros needAll ts num s. rewrite gen_submit_agrees. apply submit_spec. Qed.
+
+(* ... which is the hand-over of the composed system: the tasks the translated submit starts are, up to order, the
+   tasks [enter] leaves to be handed over - none, and the run returns the failure, when a pre-handler fails *)
+Theorem gen_submit_is_enter : forall needAll pre_of n ch rest ts col log f num s,
+  s = run Gen.TaskMgrCode.code_sync_cond needAll Gen.TaskMgrCode.code_submit (x_init (map (sk_of pre_of) ts) num) ->
+  let r := enter needAll n ch rest ts col log (S f) in
+  Permutation (map (fun p => sk_id (fst p)) (x_started s)) (map (fun x => N.to_nat (tid x)) (r_exp r))
+  /\ x_num s = num + List.length (r_exp r)
+  /\ (x_ret s = Some true <-> r_res r = Some OFail).
+Proof. intros needAll pre_of n ch rest ts col log f num s. rewrite gen_submit_agrees. apply submit_is_enter. Qed.
+
+Example gen_submit_nonvacuous :
+  let ts := [mkstk 3 true false; mkstk 4 true true; mkstk 5 false false] in
+  let ok := [mkstk 3 true false; mkstk 4 false false] in
+  x_started (run Gen.TaskMgrCode.code_sync_cond true Gen.TaskMgrCode.code_submit (x_init ts 0)) = []
+  /\ x_ret (run Gen.TaskMgrCode.code_sync_cond true Gen.TaskMgrCode.code_submit (x_init ts 0)) = Some true
+  /\ x_started (run Gen.TaskMgrCode.code_sync_cond true Gen.TaskMgrCode.code_submit (x_init ok 0))
+     = [(mkstk 4 false false, false); (mkstk 3 true false, true)].
+Proof. vm_compute. repeat split; reflexivity. Qed.
 
 (* non-vacuity: a state in which the translated updateChan sends, one in which it gives up, one in which it ends *)
 Example gen_updateChan_nonvacuous :
